@@ -23,6 +23,11 @@ def conditions(tier, seed):
                             bound='schema %s: every assignment of pool key values to 2 referred and %d referring rows (shard %d/%d)' % (sch, nb, sh, ns),
                             case_split=['ci (key assignment)'], realised=['model text'],
                             twin=(sch in ('uid', 'uid_str') and sh == 0)))
+    for sch in ('uid', 'str', 'uid_str'):
+        for tc in ('lower', 'mixed'):
+            out.append(Cond('join_%s_types_%s' % (sch, tc), 'c03_join.py', dict(schema=sch, nb=2, typecase=tc, shard=(seed if tier == 'quick' else 0) % 4, nshards=4 if tier == 'quick' else 1), timeout=t,
+                            bound='schema %s with the type names written in %s case: every assignment of pool key values (null ids, empty strings) to 2 referred and 2 referring rows%s' % (sch, tc, ' (one seed-rotated quarter)' if tier == 'quick' else ''),
+                            case_split=['ci (key assignment)'], realised=['model text'], twin=False))
     out.append(Cond('join_two_identifiers', 'c03_join.py', dict(schema='uid'), func='check_two_ids', timeout=t,
                     bound='two associations from different classes into the same class through two different identifiers, referential attributes named alike; every key assignment, both statement orders',
                     case_split=['ci'], realised=['model text']))
